@@ -5,22 +5,25 @@ import featgen, pgenlib
 
 ID = "C04"
 COQ_FILES = ["Common/Corr.v", "Model/FeaturesTables.v", "Model/Features.v", "Model/FieldView.v", "Model/RuntimeSpec.v",
-             "Model/ViewsCorr.v", "Proofs/Features.v", "Props/C04.v"]
+             "Model/Ranges.v", "Model/ViewsCorr.v", "Proofs/Features.v", "Proofs/Ranges.v", "Props/C04.v"]
 PROPS = "Props/C04.v"
 THEOREMS = ["C04_resolve_feature_is_nearest_override", "C04_has_presence_eq_runtime", "C04_is_packed_eq_runtime",
             "C04_kind_eq_runtime", "C04_cardinality_eq_runtime", "C04_is_map_eq_runtime", "C04_is_list_eq_runtime",
             "C04_has_optional_keyword_eq_runtime", "C04_source_rules_give_no_legacy_required",
             "C04_is_closed_eq_runtime", "C04_required_numbers_eq_runtime",
-            "C04_default_int_of_rendered", "C04_default_int_eq_runtime"]
+            "C04_default_int_of_rendered", "C04_default_int_eq_runtime",
+            "C04_ranges_has_eq_runtime", "C04_ranges_has_is_membership"]
 AXIOMS_OK = []
 TRUSTED = ["hand-written Gallina models: Model/Features.v (internal/editions.ResolveFeature, GetFeatureDefault, GetEditionDefaults, linker resolveFeature, protoutil.ResolveFeature), Model/FieldView.v (fldDescriptor.Cardinality/Kind/HasPresence/IsPacked/HasOptionalKeyword/IsMap/IsList, enumDescriptor.IsClosed, msgDescriptor.RequiredNumbers)",
+           "Model/Ranges.v: hand-written models of fieldRanges.Has / enumRanges.Has (linker: scan in declaration order) and of protobuf-go filedesc FieldRanges.Has / EnumRanges.Has (sorted copy + binary search); both validated on every run against the real Has on every generated message / enum with ranges",
            "Model/RuntimeSpec.v: transcription of protobuf-go v1.36.11 protodesc/filedesc rules (mergeEditionFeatures, initFieldsFromDescriptorProto, desc_resolve.go, filedesc.Field/Extension accessors); validated on every run against protodesc.NewFile on every generated element",
            "transcription script checks/featgen.py (pregen): edition_defaults of descriptor.pb.go's embedded descriptor and editions_defaults.binpb -> Model/FeaturesTables.v; cross-checked on every run against editions.GetEditionDefaults and the runtime's behaviour on featureless files",
            "correspondence harness harness/cmd/views (public API only) and the program generator checks/pgenlib.py"]
 ASSUMPTIONS = ["the agreement theorems assume wf_field / wf_enum (Model/RuntimeSpec.v): supported edition; no features in proto2/proto3 files; label in {optional, required, repeated}; a map-entry message is referenced only by its own repeated non-extension message field; LEGACY_REQUIRED never in force for a repeated field, an extension, a oneof member or a map-entry member; map-entry members are plain fields; extensions are not oneof members; proto3_optional only on optional proto3 fields. The check evaluates the guard on every generated element and reports how many satisfy it; from-source programs always do",
                "protobuf-go is the reference and is not verified",
                "default values: Default() of the integer kinds is modelled (parse of the compiled default_value text with the range of the kind) and proved equal to the number the text denotes and to what the runtime reads; defaults of the other kinds (float/double, bool, enum, string, bytes) are compared linker-vs-runtime only",
-               "attributes outside the modelled vector (names, numbers, JSON/text names, non-integer defaults, ranges, map key/value, oneof membership, services) are compared impl-vs-runtime only (direct oracle), not modelled"]
+               "Has of the range views is modelled and proved equal to the runtime's under ranges_valid (non-empty, pairwise non-overlapping ranges, any declaration order; the check evaluates the guard on every observed list); sort.Slice is modelled as insertion sort by start (the starts of a valid list are distinct, so the sorted copy is unique)",
+               "attributes outside the modelled vector (names, numbers, JSON/text names, non-integer defaults, Len/Get of ranges, map key/value, oneof membership, services, the lookup methods ByName / ByNumber / ByJSONName / ByTextName / Names.Has / FieldNumbers.Has of every list view, Parent / ParentFile / Options) are compared impl-vs-runtime only (direct oracle), not modelled"]
 
 FEATS = featgen.FEATURES
 # The model mirrors the repaired code (fixes C04-required-numbers, C04-is-closed-unknown, C04-map-enum-first-value);
@@ -86,6 +89,42 @@ def c_feat(feat):
     return "[" + "; ".join("None" if v < 0 else "Some %d" % v for v in feat) + "]"
 
 
+def c_zlist(xs):
+    return "[" + "; ".join(coq_Z(x) for x in xs) + "]%Z"
+
+
+def c_ranges(rs):
+    return "[" + "; ".join("(%s, %s)" % (coq_Z(a), coq_Z(b)) for a, b in rs) + "]%Z"
+
+
+def ranges_valid(incl, rs):
+    """mirror of Model/Ranges.ranges_valid_b"""
+    last = (lambda r: r[1]) if incl else (lambda r: r[1] - 1)
+    return (all(r[0] <= last(r) for r in rs)
+            and all(tuple(a) == tuple(b) or last(a) < b[0] or last(b) < a[0] for a in rs for b in rs))
+
+
+def range_probes(incl, rs, extra):
+    """the numbers asked in Coq: a subset of the harness's probes (those around the bounds) to keep the terms short"""
+    near = set()
+    for a, b in rs:
+        for d in (-1, 0, 1):
+            near.add(a + d)
+            near.add(b + d)
+        near.add((a + b) // 2)
+    return sorted(n for n in extra if n in near)
+
+
+def list_diff(a, b):
+    """For two list-valued observations: the entries only one side has (a concrete failing query)."""
+    if not (isinstance(a, list) and isinstance(b, list)):
+        return None
+    ka = [repr(x) for x in a]
+    kb = [repr(x) for x in b]
+    sa, sb = set(ka), set(kb)
+    return {"only_linker": [x for x, k in zip(a, ka) if k not in sb][:6], "only_runtime": [x for x, k in zip(b, kb) if k not in sa][:6]}
+
+
 # ------------------------------------------------------------------------------------------------ guard (mirror of RuntimeSpec.wf_*)
 class Tables:
     def __init__(self, t):
@@ -134,6 +173,14 @@ def et_known(ein):
 
 
 # ------------------------------------------------------------------------------------------------ cases
+def corpus_dir():
+    """/verif/corpus/C04/*.proto: inputs kept from earlier findings"""
+    out = []
+    for p in sorted(glob.glob(os.path.join(VERIF, "corpus", "C04", "*.proto"))):
+        out.append(open(p).read())
+    return out
+
+
 def repo_corpus():
     out = []
     td = os.path.join(REPO, "internal", "testdata")
@@ -181,22 +228,37 @@ def run(ctx):
     ctx.extra["t_run_start"] = round(_t0.time() - ctx.t0, 1)
     rng = ctx.rng
     T = Tables(featgen.read_tables(REPO))
-    nprog = ctx.budget(120, 1200)
+    nprog = ctx.budget(100, 1000)
+    nadv = ctx.budget(60, 600)
     ninj = ctx.budget(80, 800)
     ctx.rule = ("programs: hand-written corpus + the repository's editions fixtures + %d generated multi-file programs (proto2/proto3/edition 2023; "
                 "feature overrides wherever the option targets allow: file, message(json_format), field, enum; messages nested 0-4 deep; maps, groups, "
-                "oneofs, proto3 optional, packed options, extensions at file and message scope, *_UNKNOWN feature values) + %d variants re-fed as descriptor "
+                "oneofs, proto3 optional, packed options, extensions at file and message scope, *_UNKNOWN feature values) + %d programs of the same generator with "
+                "adversarial declaration orders (several extension / reserved ranges per message and enum declared out of ascending order, adjacent, single numbers, "
+                "to max, negative enum ranges, int32 extremes; fields, oneofs and range statements of a message shuffled so that numbers and names are not ascending) "
+                "+ %d variants re-fed as descriptor "
                 "protos with overrides of all six features injected on messages, oneofs and enums at any depth; one evaluation = one descriptor element "
                 "(field, extension, message, enum, oneof); distinct = distinct (model input, observation) term; non-trivial = an editions element or one "
-                "with an option/feature that matters (packed, oneof, map, extension, proto3_optional, required)" % (nprog, ninj))
+                "with an option/feature that matters (packed, oneof, map, extension, proto3_optional, required), or a range list of two or more ranges. Every "
+                "element is asked through BOTH descriptor implementations with the same queries (computed from the descriptor proto): Len/Get of every list, "
+                "Has of reserved / extension ranges, reserved names and required numbers at and around every bound and every field number, ByNumber / ByName / "
+                "ByJSONName / ByTextName of the field lists (message and oneof), ByName / ByNumber of enum values, ByName of the message / enum / extension / "
+                "oneof / service / method lists for every name in scope in lower and upper case, Parent / ParentFile / Syntax / IsPlaceholder / Options; Has of the "
+                "range views is also evaluated against the Coq models of both sides" % (nprog, nadv, ninj))
     cases = []
-    for text in pgenlib.CORPUS_C04:
+    for text in pgenlib.CORPUS_C04 + pgenlib.CORPUS_C04_LOOKUPS + corpus_dir():
         cases.append({"files": {"c.proto": text}, "main": "c.proto", "origin": "corpus"})
     cases += repo_corpus()
     progs = []
     cfg = pgenlib.Cfg()
     for _ in range(nprog):
         p = pgenlib.gen_program(rng, cfg)
+        progs.append(p)
+        for fn in p.order:
+            cases.append({"files": {k: p.files[k] for k in p.order[: p.order.index(fn) + 1]}, "main": fn, "origin": "generated"})
+    cfg_adv = pgenlib.Cfg(adversarial_order=True)
+    for _ in range(nadv):
+        p = pgenlib.gen_program(rng, cfg_adv)
         progs.append(p)
         for fn in p.order:
             cases.append({"files": {k: p.files[k] for k in p.order[: p.order.index(fn) + 1]}, "main": fn, "origin": "generated"})
@@ -301,7 +363,8 @@ def run(ctx):
                 for k in pair["rt"]:
                     if pair["lk"].get(k) != pair["rt"][k]:
                         ctx.violation("%s-%s-differs" % (what, k), "%s attribute %s: linker %r, runtime %r" % (what, k, pair["lk"].get(k), pair["rt"][k]),
-                                      replay_of(c, {"attr": k, "linker": pair["lk"].get(k), "runtime": pair["rt"][k]}))
+                                      replay_of(c, {"attr": k, "linker": pair["lk"].get(k), "runtime": pair["rt"][k],
+                                                    "differing_queries": list_diff(pair["lk"].get(k), pair["rt"][k])}))
         add_term("VFeat %d %s %s" % (o["file"]["ed"], c_chain(o["file"]["chain"]), c_feat(o["file"]["feat"])),
                  ("feat", replay_of(c, {"element": "(file)"})))
         for e in elems:
@@ -317,7 +380,8 @@ def run(ctx):
                 for k in rt:
                     if lk.get(k) == rt[k]:
                         continue
-                    rep = replay_of(c, {"element": e["name"], "kind": e["k"], "attr": k, "linker": lk.get(k), "runtime": rt[k]})
+                    rep = replay_of(c, {"element": e["name"], "kind": e["k"], "attr": k, "linker": lk.get(k), "runtime": rt[k],
+                                        "differing_queries": list_diff(lk.get(k), rt[k])})
                     if injected and not e["_wf"]:
                         stats["outside_guard_diffs"] += 1
                         continue
@@ -363,13 +427,33 @@ def run(ctx):
                 klass = "oneof" + ("-injected" if injected else "")
             ctx.count(t, nontriv, klass)
             add_term(t, m)
+            # ---- Has of the range views against the models of both sides
+            if e["k"] in ("msg", "enum"):
+                incl = e["k"] == "enum"
+                for rk, hk in (("rsvd", "rsvdhas"),) + ((("extranges", "exthas"),) if not incl else ()):
+                    rs = lk.get(rk) or []
+                    if not rs:
+                        continue
+                    asked = range_probes(incl, rs, e.get("probes", []))
+                    aset = set(asked)
+                    lkh = [n for n in lk.get(hk, []) if n in aset]
+                    rth = None if rt is None else [n for n in rt.get(hk, []) if n in aset]
+                    valid = ranges_valid(incl, rs)
+                    if not valid:
+                        stats["ranges_outside_guard"] = stats.get("ranges_outside_guard", 0) + 1
+                    rterm = "VRangesHas %s %s %s %s %s %s" % (coq_bool(incl), c_ranges(rs), c_zlist(asked), c_zlist(lkh),
+                                                            "None" if rth is None else "(Some %s)" % c_zlist(rth), coq_bool(valid))
+                    unsorted = len(rs) > 1 and [r[0] for r in rs] != sorted(r[0] for r in rs)
+                    ctx.count(rterm, len(rs) > 1, "ranges-%s%s" % (rk, "-unsorted" if unsorted else ""))
+                    add_term(rterm, ("ranges", replay_of(c, {"element": e["name"], "view": rk, "incl": incl, "ranges": rs, "asked": asked,
+                                                             "linker_has": lkh, "runtime_has": rth})))
         if len(ctx.samples) < 3 and c["origin"] == "generated" and len(c["files"][c["main"]]) < 900:
             ctx.sample({"main": c["main"], "text": c["files"][c["main"]]})
     ctx.extra["c04_stats"] = stats
     if stats["programs"] < 20:
         raise RuntimeError("too few accepted programs: %r" % stats)
     header = ("From Coq Require Import List NArith Bool.\nImport ListNotations.\n"
-              "From PV Require Import Common.Corr Model.FeaturesTables Model.Features Model.FieldView Model.RuntimeSpec Model.ViewsCorr.\nFrom Coq Require Import ZArith String.\nOpen Scope N_scope.\n")
+              "From PV Require Import Common.Corr Model.FeaturesTables Model.Features Model.FieldView Model.RuntimeSpec Model.Ranges Model.ViewsCorr.\nFrom Coq Require Import ZArith String.\nOpen Scope N_scope.\n")
     ctx.extra["t_terms"] = round(_t.time() - ctx.t0, 1)
     ctx.extra["n_terms"] = len(terms)
     mism, err = coq_eval_mismatches("cases_C04", header, terms, CHK, shard_size=ctx.budget(700, 1500))
@@ -412,6 +496,15 @@ def run(ctx):
                     split_meta.append(("runtime-spec:is-closed", k))
                 split_terms.append("VWfEnum %d %s %s %s" % (ein["ed"], c_chain(ein["chain"]), coq_bool(wf_enum(T, ein)), coq_bool(et_known(ein))))
                 split_meta.append(("plugin-guard:enum", k))
+            elif t.startswith("VRangesHas"):
+                pre = "%s %s" % (coq_bool(rep["incl"]), c_ranges(rep["ranges"]))
+                split_terms.append("VRangesLk %s %s %s" % (pre, c_zlist(rep["asked"]), c_zlist(rep["linker_has"])))
+                split_meta.append(("model:ranges-has", k))
+                if rep["runtime_has"] is not None:
+                    split_terms.append("VRangesRt %s %s %s" % (pre, c_zlist(rep["asked"]), c_zlist(rep["runtime_has"])))
+                    split_meta.append(("runtime-spec:ranges-has", k))
+                split_terms.append("VRangesValid %s %s" % (pre, coq_bool(ranges_valid(rep["incl"], rep["ranges"]))))
+                split_meta.append(("plugin-guard:ranges", k))
             else:
                 split_terms.append(t)
                 split_meta.append(("model:" + meta[k][0], k))
